@@ -588,11 +588,13 @@ class Cmd:
         self.kind, self.hdrs, self.pool, self.tag = kind, list(hdrs), pool, 1
         self.undeclared = []          # files the command line reads although the manifest does not declare them (yet)
         self.literal = None           # when set: the files the command line names, whatever class the manifest declares them in
+        self.extra_outs = []          # files the command line writes although the build statement does not (yet / any more) declare them
 
     def copy(self):
         c = Cmd(self.name, self.outs, self.exp, self.imp, self.oo, self.kind, self.hdrs, self.pool)
         c.tag, c.undeclared = self.tag, list(self.undeclared)
         c.literal = None if self.literal is None else list(self.literal)
+        c.extra_outs = list(self.extra_outs)
         return c
 
 
@@ -623,7 +625,8 @@ class World:
 
     def command_line(self, c):
         rd = self.files_read(c)
-        return "exec ./cmd.sh %s t%d %s %d %s -- %s%s" % (c.name, c.tag, c.kind, len(c.outs), " ".join(c.outs), " ".join(rd),
+        written = c.outs + c.extra_outs
+        return "exec ./cmd.sh %s t%d %s %d %s -- %s%s" % (c.name, c.tag, c.kind, len(written), " ".join(written), " ".join(rd),
                                                     (" -H " + " ".join(c.hdrs)) if c.hdrs else "")
 
     def manifest(self):
@@ -1168,11 +1171,96 @@ def history(llb, d, seed, jobs, db, keep_going, with_ninja, want_clean):
         null_rebuild("after restoring the derived command line")
         return not findings
 
+    def gain_lose_output():
+        """An existing build statement gains an output (one the command line already writes, so the command text does not
+        change; the stray file is removed as in a fresh checkout) and later loses it again."""
+        cands = [c for c in w.reachable() if len(c.outs) == 1 and not c.extra_outs and c.literal is None]
+        if not cands:
+            return None
+        c = rng.choice(cands)
+        nb = c.outs[0] + "x"
+        stats["nontrivial"].add(("gain/lose output", jobs, db, keep_going))
+
+        def sync(tag):
+            for t in twins:
+                t.w = w
+                t.write_manifest()
+            rc, ran, txt, nran = build_all(tag)
+            if rc != 0:
+                findings.append(("build-failed", "the build after '%s' failed although no command can fail" % tag, rp(dict(ran=ran, text=txt[-1200:]))))
+                return None
+            return ran
+        c.extra_outs = [nb]
+        record("op", op="command line also writes an undeclared file", cmd=c.name, node=nb)
+        ran = sync("command writes an extra file")
+        if ran is None or not check_success_state("command writes an extra file", ran):
+            return False
+        null_rebuild("after the command line change")
+        if findings:
+            return False
+        # the statement gains the output; command text unchanged; the stray file is not there (fresh checkout)
+        c.extra_outs = []
+        c.outs.append(nb)
+        for t in twins:
+            rm(t.J(nb))
+        record("op", op="build statement gains an output", cmd=c.name, node=nb, command_line="unchanged")
+        ran = sync("statement gains an output")
+        if ran is None:
+            return False
+        got = sb.contents([nb])[nb]
+        exp = w.expected_content(nb)
+        if got != exp:
+            demanded = nb in w.targets() or any(nb in d.exp + d.imp + d.oo + d.hdrs for d in w.reachable())
+            key = "added-output-not-built" if (got is None and not demanded) else "stale-output"
+            item = (key, "`build %s` was edited to `build %s %s` (command text unchanged): the build ran %s and %s, a clean build of the same manifest produces it" % (
+                c.outs[0], c.outs[0], nb, ran, "left %s missing" % nb if got is None else "left %s stale" % nb), rp(dict(ran=ran, node=nb, content=got, clean_build_content=exp)))
+            if key == "added-output-not-built":
+                if not any(k == key for (k, _, _) in known):
+                    known.append(item)
+                # bring the sandbox to the clean-build state (a changed command text invalidates the stale select result) and go on
+                c.tag += 1
+                record("op", op="change_command (recovery)", cmd=c.name)
+                ran = sync("forced after added-output-not-built")
+                if ran is None:
+                    return False
+            else:
+                findings.append(item)
+                return False
+        if not check_success_state("statement gains an output", ran):
+            return False
+        null_rebuild("after the statement gained an output")
+        if findings:
+            return False
+        # ... and loses it again (the command still writes the file)
+        c.outs.remove(nb)
+        c.extra_outs = [nb]
+        record("op", op="build statement loses an output", cmd=c.name, node=nb, command_line="unchanged")
+        ran = sync("statement loses an output")
+        if ran is None or not check_success_state("statement loses an output", ran):
+            return False
+        null_rebuild("after the statement lost an output")
+        if findings:
+            return False
+        c.extra_outs = []
+        ran = sync("command line without the extra file")
+        if ran is None or not check_success_state("command line without the extra file", ran):
+            return False
+        null_rebuild("after removing the extra file from the command line")
+        return not findings
+
     nops = rng.randint(5, 9)
     done = 0
     guard = 0
     while done < nops and guard < 60 and not findings:
         guard += 1
+        if rng.random() < 0.10:
+            r = gain_lose_output()
+            if r is None:
+                continue
+            done += 1
+            if r is False:
+                break
+            continue
         if rng.random() < 0.18:
             r = reclassify()
             if r is None:
@@ -1516,6 +1604,50 @@ def scripted(llb, base):
             elif not os.path.exists(os.path.join(d, victim)) or log[2][0] != 0:
                 out.append(("delete-output-did-not-rerun", "the output %s of a command without explicit/implicit inputs was deleted: the next build did not re-create it "
                             "(exit status %d, ran %s)" % (victim, log[2][0], log[2][1]), rpl(d, log, history=hist)))
+    # -- an existing build statement gains an output: `build a: r x` -> `build a b: r x`; with the command text unchanged or
+    #    changed, with b demanded or not; then it loses the output again.  Oracle: b as a clean build leaves it; rebuild runs nothing
+    for text_changes in (0, 1):
+        for demanded in (0, 1):
+            C1 = "cp x a; echo run >> runlog" if text_changes else "cp x a; cp x b; echo run >> runlog"
+            C2 = "cp x a; cp x b; echo run >> runlog"
+            M = "rule r\n  command = %s\nbuild %s: r x\ndefault %s\n"
+            d = sandbox("gainout-%d-%d" % (text_changes, demanded), M % (C1, "a", "a"), {"x": ("x1\n", 10)})
+            log = [build(llb, d, ["-j1"])]
+            rm(os.path.join(d, "b"))                     # no stray copy (as in a fresh checkout)
+            open(os.path.join(d, "build.ninja"), "w").write(M % (C2, "a b", "a b" if demanded else "a"))
+            log += [build(llb, d, ["-j1"]), build(llb, d, ["-j1"])]
+            b = open(os.path.join(d, "b")).read() if os.path.exists(os.path.join(d, "b")) else None
+            hist = ["build `build a: r x`", "edit to `build a b: r x` (command text %s), default %s" % ("changed" if text_changes else "unchanged", "a b" if demanded else "a"), "build", "build"]
+            if log[0][0] != 0 or log[1][0] != 0:
+                out.append(("build-failed", "gains-an-output scenario: exit statuses %s" % [l[0] for l in log], rpl(d, log, history=hist)))
+            elif b != "x1\n":
+                out.append(("added-output-not-built" if not demanded else "stale-output",
+                            "`build a: r x` was edited to `build a b: r x` (command text %s, default target %s): the build ran %s and b is %r; a clean build of the "
+                            "same manifest produces b = 'x1\\n'" % ("changed" if text_changes else "unchanged", "a b" if demanded else "a", log[1][1], b), rpl(d, log, history=hist)))
+            elif log[2][0] != 0 or log[2][1]:
+                out.append(("null-build-runs", "gains-an-output scenario: the immediate rebuild ran %s" % log[2][1], rpl(d, log, history=hist)))
+            else:
+                open(os.path.join(d, "build.ninja"), "w").write(M % (C2, "a", "a"))
+                put(os.path.join(d, "x"), "x2\n", T_NEW)
+                l2 = [build(llb, d, ["-j1"]), build(llb, d, ["-j1"])]
+                a = open(os.path.join(d, "a")).read() if os.path.exists(os.path.join(d, "a")) else None
+                if l2[0][0] != 0 or a != "x2\n":
+                    out.append(("stale-output", "the statement lost its second output and x was edited: a = %r (clean build: 'x2\\n')" % a, rpl(d, log + l2, history=hist)))
+                elif l2[1][0] != 0 or l2[1][1]:
+                    out.append(("null-build-runs", "loses-an-output scenario: the immediate rebuild ran %s" % l2[1][1], rpl(d, log + l2, history=hist)))
+    # -- same root, stronger: after the statement gained an output, the select rule of `a` keeps the old command rule's stored
+    #    result and dependency list, so even deleting `a` (needed by c) is not repaired
+    C2 = "cp x a; cp x b; echo run >> runlog"
+    M = "rule r\n  command = %s\nbuild %s: r x\nrule u\n  command = cat a > c; echo use >> runlog\nbuild c: u a\ndefault c\n"
+    d = sandbox("gainout-deleted", M % (C2, "a"), {"x": ("x1\n", 10)})
+    log = [build(llb, d, ["-j1"])]
+    open(os.path.join(d, "build.ninja"), "w").write(M % (C2, "a b"))
+    rm(os.path.join(d, "a")); rm(os.path.join(d, "b"))
+    log.append(build(llb, d, ["-j1"]))
+    if log[0][0] == 0 and not os.path.exists(os.path.join(d, "a")):
+        out.append(("added-output-not-built-deleted-output", "`build a: r x` was edited to `build a b: r x` (command text unchanged) and a, b were deleted: the build of c "
+                    "(which reads a) ran %s with exit status %d and left a missing" % (log[1][1], log[1][0]),
+                    rpl(d, log, history=["build", "edit to `build a b: r x`, delete a and b", "build"])))
     # -- restat: an upstream command that leaves its output untouched does not re-run its dependents; without restat it does
     for restat in (1, 0):
         M = ("rule MK\n  command = echo $out >> runlog; if [ ! -f $out ]; then cp $in $out; fi\n%srule CP\n  command = echo $out >> runlog; cp $in $out\n"
